@@ -16,7 +16,7 @@ import (
 // every build configuration (part B: prog.go, compared by the driver).
 
 var c07Arenas [3]*hx.Arena
-var c07Long [3]*hx.Arena          // 20480 words each: vectors far beyond any block size a kernel may use
+var c07Long [3]*hx.Arena         // 20480 words each: vectors far beyond any block size a kernel may use
 var c07FarLo, c07FarHi *hx.Arena // data regions exactly 4 GiB apart (nil when the address space cannot be reserved)
 
 func init() {
